@@ -551,38 +551,85 @@ def gen_pipeline_case(rng):
 
 
 def split_e2e(ctx, n):
-    """complete gen_coords runs with -split on systems in which some residues are split and others are not (F33): the
-    structure is written, lists every atom once in topology order, the named atoms under their new residue names and
-    all other atoms under their old ones"""
+    """complete gen_coords runs with one or two -split options on systems in which some residues are split and others are
+    not (F33): the structure is written, lists every atom once in topology order, the named atoms under their new residue
+    names and all other atoms under their old ones, and two atoms share a residue exactly if they stem from the same
+    original residue and got the same new name (also when two options use the same new names)"""
     rng = ctx.rng
+    queue = []
     for _ in range(n):
         case = gen_pipeline_case(rng)
-        if not case['split']:
-            continue
-        head, *parts = case['split'].split(':')
-        newname = {a: part.split('-')[0] for part in parts for a in part.split('-')[1].split(',')}
+        if case['split']:
+            queue.append((case, None))
+    while queue:
+        case, forced = queue.pop(0)
+        splits = [case['split']]
+        head = case['split'].split(':')[0]
+        others = sorted({rn for m in case['moltypes'] for rn in m['resnames']} - {head})
+        if forced is not None:
+            splits = list(forced)
+        elif others and rng.random() < 0.7:
+            # a second option for another residue name, re-using the names of the new residues
+            rn2 = rng.choice(others)
+            names2 = sorted({a['name'] for m in case['moltypes'] for a in m['atoms'] if a['resname'] == rn2})
+            rng.shuffle(names2)
+            cut = rng.randint(1, len(names2))
+            news2 = [('NA', names2[:cut])] + ([('NB', names2[cut:])] if names2[cut:] else [])
+            splits.append(rn2 + ''.join(f":{nn}-{','.join(ats)}" for nn, ats in news2))
+            queue.insert(0, (case, list(reversed(splits))))       # the same two options in the other order as well
+            ctx.feature('two_split_options_sharing_new_names')
+        newname = {}
+        for sp in splits:
+            h, *parts = sp.split(':')
+            for part in parts:
+                for a in part.split('-')[1].split(','):
+                    newname[(h, a)] = part.split('-')[0]
         with systems.Workdir() as wd:
-            res = systems.run_gen_coords(wd, systems.top_text(case['moltypes'], case['molecules']), split=[case['split']],
+            res = systems.run_gen_coords(wd, systems.top_text(case['moltypes'], case['molecules']), split=list(splits),
                                          box=np.array([8.0, 8.0, 8.0]), timeout=60, maxiter=200, seed=rng.randrange(10 ** 6))
-        want = [(rn if rn != head or an not in newname else newname[an], an)
-                for _, rn, an in systems.expanded_atoms(case['moltypes'], case['molecules'])]
-        unsplit = any(rn != head for _, rn, _ in systems.expanded_atoms(case['moltypes'], case['molecules']))
-        ctx.case(('split_e2e', case['split'], json.dumps(case['molecules']), systems.top_text(case['moltypes'], case['molecules'])),
-                 nontrivial=res['ok'] and unsplit, sample={'split': case['split'], 'molecules': case['molecules'], 'ok': res['ok']})
+        by = {mt['name']: mt for mt in case['moltypes']}
+        inst = [nm for nm, c in case['molecules'] for _ in range(c)]
+        want, groups = [], []
+        for mi, nm in enumerate(inst):
+            for a in by[nm]['atoms']:
+                nn = newname.get((a['resname'], a['name']))
+                want.append((nn or a['resname'], a['name']))
+                groups.append((mi, a.get('res', a['resid']), nn))
+        unsplit = any(g[2] is None for g in groups)
+        ctx.case(('split_e2e', tuple(splits), json.dumps(case['molecules']), systems.top_text(case['moltypes'], case['molecules'])),
+                 nontrivial=res['ok'] and unsplit, sample={'split': splits, 'molecules': case['molecules'], 'ok': res['ok']})
         ctx.feature('gen_coords_split_run_ok' if res['ok'] else 'gen_coords_split_run_failed')
-        rep = {'split_e2e': {'moltypes': case['moltypes'], 'molecules': case['molecules'], 'split': case['split']}}
+        rep = {'split_e2e': {'moltypes': case['moltypes'], 'molecules': case['molecules'], 'split': splits}}
         if not res['ok']:
             if res['exc_type'] != 'RunTimeout':
-                ctx.violation('spec', f"gen_coords -split {case['split']!r} fails ({res['exc_type']}: {str(res.get('exception'))[:120]}) on a system in which "
+                ctx.violation('spec', f"gen_coords -split {splits} fails ({res['exc_type']}: {str(res.get('exception'))[:120]}) on a system in which "
                               f"{'some residues are' if unsplit else 'no residue is'} left unsplit", rep)
             continue
-        got = [(r['resname'], r['name']) for r in res.get('rows') or []]
+        rows = res.get('rows') or []
+        got = [(r['resname'], r['name']) for r in rows]
         if got != want:
             k = next((i for i, (a, b) in enumerate(zip(got, want)) if a != b), min(len(got), len(want)))
-            ctx.violation('spec', f"gen_coords -split {case['split']!r}: row {k + 1} is {got[k] if k < len(got) else None}, the split assigns "
+            ctx.violation('spec', f"gen_coords -split {splits}: row {k + 1} is {got[k] if k < len(got) else None}, the split assigns "
                           f"{want[k] if k < len(want) else None} ({len(got)} rows written, {len(want)} atoms)", rep)
-        elif not all(math.isfinite(x) for r in res['rows'] for x in r['xyz']):
-            ctx.violation('spec', f"gen_coords -split {case['split']!r}: a written coordinate is not finite", rep)
+            continue
+        if not all(math.isfinite(x) for r in rows for x in r['xyz']):
+            ctx.violation('spec', f"gen_coords -split {splits}: a written coordinate is not finite", rep)
+            continue
+        # the partition into residues: same written residue (molecule, number, name) <=> same original residue and same new name
+        for i in range(len(rows)):
+            for j in range(i + 1, len(rows)):
+                if groups[i][0] != groups[j][0]:
+                    continue
+                same_written = (rows[i]['resid'], rows[i]['resname']) == (rows[j]['resid'], rows[j]['resname'])
+                if same_written != (groups[i] == groups[j]):
+                    ctx.violation('spec', f"gen_coords -split {splits}: atoms {i + 1} ({rows[i]['resid']}{rows[i]['resname']}:{rows[i]['name']}) and {j + 1} "
+                                  f"({rows[j]['resid']}{rows[j]['resname']}:{rows[j]['name']}) of molecule {groups[i][0]} are written in "
+                                  f"{'one residue' if same_written else 'different residues'}; they stem from original residues "
+                                  f"{groups[i][1]} / {groups[j][1]} with new names {groups[i][2]} / {groups[j][2]}", rep)
+                    break
+            else:
+                continue
+            break
 
 
 def pipeline_cases(ctx, n):
@@ -647,7 +694,7 @@ def run(ctx):
             ctx.note(str(exc)[:800])
             ctx.broken.append('correspondence:selection vs model (evaluation failed)')
     pipeline_cases(ctx, ctx.n(40, 400))
-    split_e2e(ctx, ctx.n(8, 60))
+    split_e2e(ctx, ctx.n(16, 90))
     for _lig_k in range(ctx.n(9, 80)):
         case, res, rec = ligand_run(rng, by_name=(_lig_k % 3 == 2))
         if case.get('by_name'):
